@@ -112,7 +112,7 @@ def run(ctx):
     def job(spec):
         kind, name = spec
         if kind == "pool":
-            return spec, ctx.tlc("C11_pool", pool_cfg, timeout=2400, workers=max(2, big - 3), heap="6g", label="pool")
+            return spec, ctx.tlc("C11_pool", pool_cfg, timeout=3600, workers=max(2, big - 3), heap="6g", label="pool")
         if kind == "graph":
             return spec, ctx.tlc("C11_pool", graph_cfg, dump=["dot,actionlabels", dot], timeout=2400, workers=2, heap="4g", label="graph")
         return spec, ctx.tlc("C11_pool", "C11_weak_%s.cfg" % name, timeout=900, workers=1, heap="2g", label="weak_" + name)
